@@ -18,7 +18,7 @@ RULE = ("E-sched: libsodium compiled with -fsanitize=thread instrumentation but 
         "thorough = all 65x65 pairs with <= 1 and the core pairs with <= 2: results equal sequential results. Data race = two co-enabled threads whose "
         "pending accesses overlap with at least one write, checked at every choice point of every explored schedule. Complement "
         "(sampled, reported separately): same bodies free-running under the real ThreadSanitizer runtime with 2/4/8/16 threads."
-        " Non-default backends: every operation against itself under the CPU-feature masks -avx512f, -avx2, -sse41, none (thorough: every mask of the chain, also -aesni/pclmul, <= 2 preemptions).")
+        " Non-default backends: every operation against itself under the CPU-feature masks -avx512f, -avx2, -sse41, none (thorough: every mask of the chain, also -aesni/pclmul), <= 1 preemption.")
 
 META = {
     "engine": "E-sched", "level": "model_checking",
@@ -60,7 +60,7 @@ def main(tier):
     # storage: every operation against itself under each masked configuration
     from vf import configs as _cfg
     for cfg in (_cfg.CHAIN[1], _cfg.CHAIN[2], _cfg.CHAIN[4], _cfg.NONE) if tier == "quick" else tuple(_cfg.CHAIN[1:]) + (_cfg.NONE, _cfg.NOAES):
-        a = ["pairs", "1", "self"] if tier == "quick" else ["pairs", "2", "self"]
+        a = ["pairs", "1", "self"]
         r = common.run([e1] + a, env={"SODIUM_VERIF_CPU_DISABLE": cfg}, label="c19-self-" + cfg.replace(",", "_"), timeout=6 * 3600)
         bounds.append("%s [-%s]: %d executions" % (" ".join(a), cfg, r.stat("executions")))
         for f in r.fails: f[2].setdefault("env", {})["SODIUM_VERIF_CPU_DISABLE"] = cfg
